@@ -464,6 +464,7 @@ def main():
         results[n] = r
         edits["verus:" + n] = elog
     static_notes = []
+    ssel_native = {}
     for n, s in ssel.items():
         try:
             ok, note = s["fn"](extract.REPO)
@@ -509,6 +510,19 @@ def main():
     for sn in static_notes:
         if sn["ok"] is None:
             undecided.append("scan %s: %s" % (sn["scan"], sn["note"]))
+        elif sn["ok"] is False:
+            # a syntactic scan decides nothing by itself: a flag becomes a violation only when the native
+            # replay registered for it fails against the real crate
+            sp = ssel[sn["scan"]]
+            nat = sp["replay_static"](HERE) if sp.get("replay_static") else None
+            if nat and nat.get("reproduced"):
+                f = dict(obligation=sp.get("obligation", sn["scan"]), desc=sn["note"], loc="", kind="obligation")
+                results["scan:" + sn["scan"]] = dict(harness="scan:" + sn["scan"], status="violation", obligations={f["obligation"]: "FAILURE"}, failures=[f], undecided=[], covers={}, solver_s=0, variant="scan",
+                                                     cmd="syntactic scan + native replay", raw_tail=json.dumps(nat), playback=None)
+                violations.append(("scan:" + sn["scan"], f, results["scan:" + sn["scan"]]))
+                ssel_native[sn["scan"]] = nat
+            else:
+                undecided.append("scan %s flagged (%s) but the native replay did not confirm it" % (sn["scan"], sn["note"]))
 
     # ---- report ------------------------------------------------------------------------------
     rc = 0
@@ -524,7 +538,7 @@ def main():
         rp = os.path.join(ctx.replays, "%s-%s-%s.json" % (prop, h, re.sub(r"[^\w.\-]", "_", f["obligation"])))
         pb = [t for t in (r.get("playback") or []) if t["kind"] != "cover" and (f["obligation"] in t["desc"] or f["kind"] == "memory")]
         spec = sel.get(h) or vsel.get(h) or {}
-        native = None
+        native = ssel_native.get(h[5:]) if h.startswith("scan:") else None
         if spec.get("replay"):
             try:
                 native = spec["replay"](pb[0]["vals"] if pb else None, HERE)
@@ -595,7 +609,8 @@ def main():
         wall_s=round(time.time() - ctx.t0, 1),
         violations=len(seen),
     )
-    evdir = os.environ.get("VERIF_EVIDENCE_DIR", os.path.join(HERE, "evidence"))
+    # a partial run (--only) never overwrites the registered evidence file
+    evdir = os.environ.get("VERIF_EVIDENCE_DIR", os.path.join(HERE, "evidence") if not only else os.path.join(HERE, "work", "evidence-partial"))
     os.makedirs(evdir, exist_ok=True)
     with open(os.path.join(evdir, prop + ".json"), "w") as f:
         json.dump(ev, f, indent=1)
